@@ -14,6 +14,7 @@ seeded samples of the triple/decoration products):
             x every decoration (gene functions, notes, PFAM, TIGR, modular domains + motif + module,
             two-gene module, prepeptides with leader/tail)
   M         records without areas, extra generic features, fungal taxon
+  T         a few hand-made layouts off the raster, minimised from findings of the random search
 """
 from __future__ import annotations
 
@@ -297,7 +298,41 @@ def family_m(tier: str) -> Iterator[dict]:
             yield make(name, with_products([option]), fam="M", decor=2, seed=seed)
 
 
-FAMILIES = {"A1": family_a1, "A2": family_a2, "A3": family_a3, "AS": family_as, "AX": family_ax,
+def _gene(name: str, parts: list, strand: int = 1, **extra: Any) -> dict:
+    gene = {"n": name, "p": parts, "s": strand}
+    gene.update(extra)
+    return gene
+
+
+def family_t(tier: str) -> Iterator[dict]:
+    """ hand-made layouts off the raster (minimised from the seeded random search of the thorough tier) """
+    def rule(anchors: list, nb: int, cut: int, index: int) -> dict:
+        product, category = PRODUCTS[index % 3] if index < 3 else (f"other{index}", "PKS")
+        return {"anchors": anchors, "nb": nb, "cut": cut, "prod": product, "cat": category}
+    # a protocluster / candidate over the whole circular record next to origin-spanning ones
+    yield {"fam": "T", "lay": "whole-vs-origin", "L": 240, "circ": 1, "seed": 1,
+           "genes": [_gene("g0", [[234, 240], [0, 18]]), _gene("g1", [[44, 56], [62, 83]]), _gene("g2", [[86, 137]]),
+                     _gene("g3", [[153, 173], [137, 146]], -1, g=1)],
+           "rules": [rule(["g0", "g1"], 40, 5, 0), rule(["g1", "g2"], 90, 5, 1)], "subs": [], "misc": []}
+    # an origin-spanning single candidate with the coordinates of the neighbouring candidate
+    yield {"fam": "T", "lay": "cand-tie", "L": 240, "circ": 1, "seed": 1,
+           "genes": [_gene("g0", [[0, 54]], g=1), _gene("g1", [[79, 106]], -1), _gene("g2", [[106, 154]]),
+                     _gene("g3", [[154, 172]]), _gene("g4", [[172, 205]])],
+           "rules": [rule(["g2"], 90, 20, 0), rule(["g3", "g4"], 5, 50, 1), rule(["g4"], 5, 5, 2)],
+           "subs": [], "misc": []}
+    # linear record whose candidate cores would be connected "over the origin" if it were circular
+    yield {"fam": "T", "lay": "linear-core-wrap", "L": 360, "circ": 0, "seed": 1,
+           "genes": [_gene("g0", [[0, 59]], cs=1, fz=1), _gene("g1", [[62, 92]], -1),
+                     _gene("g2", [[140, 156], [117, 132]], -1), _gene("g3", [[156, 216]]), _gene("g4", [[219, 243]]),
+                     _gene("g5", [[246, 270]], -1), _gene("g6", [[280, 304]], -1), _gene("g7", [[304, 355]])],
+           "rules": [rule(["g2", "g3", "g4"], 90, 50, 0), rule(["g0"], 5, 50, 1), rule(["g4"], 90, 5, 2),
+                     rule(["g6"], 40, 50, 3)], "subs": [], "misc": []}
+    yield {"fam": "T", "lay": "linear-core-wrap", "L": 360, "circ": 0, "seed": 1,
+           "genes": [_gene("g0", [[0, 60]]), _gene("g1", [[117, 177]]), _gene("g2", [[270, 306]], -1)],
+           "rules": [rule(["g0"], 90, 50, 0), rule(["g1", "g2"], 45, 50, 1)], "subs": [], "misc": []}
+
+
+FAMILIES = {"T": family_t, "A1": family_a1, "A2": family_a2, "A3": family_a3, "AS": family_as, "AX": family_ax,
             "B": family_b, "M": family_m}
 
 
